@@ -56,20 +56,18 @@ func activeApps(s *world.Snap) map[string]*world.AppSnap {
 }
 
 // inflightReal reports whether key is the real half of an in-flight placeholder swap of app a:
-// the ask is marked allocated, linked to a released placeholder that still is an allocation of the application.
+// a released placeholder that still is an allocation of the application is linked to it.
 func inflightReal(a *world.AppSnap, key string) (string, bool) {
-	ask, ok := a.Asks[key]
-	if !ok || !ask.Allocated || ask.Release == "" {
-		return "", false
-	}
 	if _, isAlloc := a.Allocs[key]; isAlloc {
 		return "", false
 	}
-	ph, ok := a.Allocs[ask.Release]
-	if !ok || !ph.Ph || ph.Release != key {
-		return "", false
+	for _, k := range sortedKeys(a.Allocs) {
+		ph := a.Allocs[k]
+		if ph.Ph && ph.Released && ph.Release == key {
+			return k, true
+		}
 	}
-	return ask.Release, true
+	return "", false
 }
 
 // queuePath lists the queue and its ancestors, leaf first.
